@@ -17,8 +17,9 @@ CLAIMS = {
    text="Coq theorems over ASModel, for every schedule and any number of threads: the storage of a container changes only through "
         "successful swap/compare_exchange events, and over a whole run these writes form one chain in which every write replaces exactly "
         "what its predecessor wrote (store_chain, by induction over schedules); the swap frame hands back exactly the replaced value. " + TIE,
-   note=NOTE + "Partial: the 'exactly once / owns a full reference' half needs the ownership invariant (stated in Props/C04.v, covered "
-        "by the correspondence oracle only).",
+   note=NOTE + "'Handed back exactly once, owning a full reference': the removed value is carried with exactly one reference in the accounting table until it reaches the caller's "
+        "handle (C04_accounting = the count equation in every state of every run within Main.RunOK; C04_returned_value_alive); the hb theorems C04_handover_* pin the orderings of the "
+        "exchanges (a weakened swap/compare-exchange breaks them).",
    technique="Rocq/Coq proof (induction over schedules) + trace correspondence"),
  "C05": dict(engine="ASModel",
    text="Coq theorems over ASModel (all states, all scheduler choices incl. spurious failure): the exchange step of compare_and_swap "
